@@ -45,6 +45,9 @@ pub struct SeqBlock {
     pub count_bytes: Option<u8>,
     /// override of the compression-modes byte (default 0b01_01_01_00 = all RLE)
     pub modes: Option<u8>,
+    /// valid Repeat_Mode use: for each of (LL, OF, ML) `true` = this block says Repeat and sends no table byte;
+    /// the generator guarantees the code is the one the previous block established
+    pub repeat: [bool; 3],
     /// extra garbage appended to the bitstream / section (malformed)
     pub trailer: Vec<u8>,
 }
@@ -174,11 +177,18 @@ pub fn comp_block_body(b: &SeqBlock) -> Vec<u8> {
         return out;
     }
     out.extend_from_slice(&seq_count(b.seqs.len(), b.count_bytes));
-    out.push(b.modes.unwrap_or(0b0101_0100));
-    // RLE tables in the order LL, OF, ML
-    out.push(b.ll_code);
-    out.push(b.of_code);
-    out.push(b.ml_code);
+    let m = |r: bool, shift: u8| (if r { 3u8 } else { 1u8 }) << shift;
+    out.push(b.modes.unwrap_or(m(b.repeat[0], 6) | m(b.repeat[1], 4) | m(b.repeat[2], 2)));
+    // RLE tables in the order LL, OF, ML (nothing is sent for a repeated table)
+    if !b.repeat[0] || b.modes.is_some() {
+        out.push(b.ll_code);
+    }
+    if !b.repeat[1] || b.modes.is_some() {
+        out.push(b.of_code);
+    }
+    if !b.repeat[2] || b.modes.is_some() {
+        out.push(b.ml_code);
+    }
     let llb = LL_BASE.get(b.ll_code as usize).map(|x| x.1).unwrap_or(0);
     let mlb = ML_BASE.get(b.ml_code as usize).map(|x| x.1).unwrap_or(0);
     let ofb = b.of_code.min(56);
@@ -374,7 +384,8 @@ pub fn serialize(f: &Frame, dict: &[u8]) -> (Vec<u8>, Option<Vec<u8>>) {
 
 /// A valid synthetic frame exercising rare features chosen on purpose.
 pub fn valid_frame(rng: &mut Rng) -> (Frame, String) {
-    let flavour = rng.below(10);
+    // (flavour 11 regenerates 64-128 MiB: keep it rare)
+    let flavour = if rng.chance(1, 50) { 11 } else { rng.below(11) };
     let mut blocks = Vec::new();
     let mut label;
     let wdesc = *rng.pick(&[0u8, 1, 7, 8, 0x10, 0x28, 0x39]);
@@ -388,7 +399,7 @@ pub fn valid_frame(rng: &mut Rng) -> (Frame, String) {
             // ll code 0 (0 literals), ml code 0 (3 bytes), offset code 2 + extra => offset value 4..7 => offset 1..4
             let seqs: Vec<(u32, u32, u32)> = (0..n).map(|_| (0, 0, rng.below(4) as u32)).collect();
             let forms = if n < 128 { vec![None, Some(2u8)] } else { vec![None] };
-            blocks.push(Block::Comp(SeqBlock { lits: Lit::Raw(vec![]), ll_code: 0, ml_code: 0, of_code: 2, seqs, count_bytes: *rng.pick(&forms), modes: None, trailer: vec![] }));
+            blocks.push(Block::Comp(SeqBlock { lits: Lit::Raw(vec![]), ll_code: 0, ml_code: 0, of_code: 2, seqs, count_bytes: *rng.pick(&forms), modes: None, repeat: [false; 3], trailer: vec![] }));
             label = format!("seqcount n={}", n);
         }
         1 => {
@@ -443,7 +454,7 @@ pub fn valid_frame(rng: &mut Rng) -> (Frame, String) {
                     continue;
                 }
                 let lits = { let n_ = seqs.len() * ll_code as usize; rng.bytes(n_) };
-                blocks.push(Block::Comp(SeqBlock { lits: Lit::Raw(lits), ll_code, ml_code: 0, of_code, seqs, count_bytes: None, modes: None, trailer: vec![] }));
+                blocks.push(Block::Comp(SeqBlock { lits: Lit::Raw(lits), ll_code, ml_code: 0, of_code, seqs, count_bytes: None, modes: None, repeat: [false; 3], trailer: vec![] }));
             }
             label = format!("repeat-offset walk over {} blocks, final history {:?}", blocks.len() - 1, hist);
         }
@@ -473,7 +484,7 @@ pub fn valid_frame(rng: &mut Rng) -> (Frame, String) {
                 need = LL_BASE[ll_code as usize].0 as usize;
             }
             let lits = if rng.chance(1, 2) { Lit::Raw(rng.bytes(need + 3)) } else { Lit::Rle(rng.next() as u8, need + 3) };
-            blocks.push(Block::Comp(SeqBlock { lits, ll_code, ml_code, of_code: 2, seqs, count_bytes: None, modes: None, trailer: vec![] }));
+            blocks.push(Block::Comp(SeqBlock { lits, ll_code, ml_code, of_code: 2, seqs, count_bytes: None, modes: None, repeat: [false; 3], trailer: vec![] }));
             label = format!("long lengths ll_code={} ml_code={}", ll_code, ml_code);
         }
         3 => {
@@ -490,7 +501,7 @@ pub fn valid_frame(rng: &mut Rng) -> (Frame, String) {
             let ov = window as u64 + 3;
             let code = 63 - ov.leading_zeros() as u8;
             let extra = (ov - (1u64 << code)) as u32;
-            blocks.push(Block::Comp(SeqBlock { lits: Lit::Raw(vec![9, 9]), ll_code: 2, ml_code: rng.range(0, 31) as u8, of_code: code, seqs: vec![(0, 0, extra)], count_bytes: None, modes: None, trailer: vec![] }));
+            blocks.push(Block::Comp(SeqBlock { lits: Lit::Raw(vec![9, 9]), ll_code: 2, ml_code: rng.range(0, 31) as u8, of_code: code, seqs: vec![(0, 0, extra)], count_bytes: None, modes: None, repeat: [false; 3], trailer: vec![] }));
             label = format!("offset == window ({})", window);
         }
         4 => {
@@ -520,7 +531,7 @@ pub fn valid_frame(rng: &mut Rng) -> (Frame, String) {
             blocks.push(Block::Raw({ let n_ = rng.range(1, 5) as usize; rng.bytes(n_) }));
             let n = rng.range(1, 2) as usize;
             let seqs = (0..n).map(|_| (0, rng.next() as u32, 0)).collect();
-            blocks.push(Block::Comp(SeqBlock { lits: Lit::Raw(vec![]), ll_code: 0, ml_code: *rng.pick(&[43u8, 48, 51]), of_code: 2, seqs, count_bytes: None, modes: None, trailer: vec![] }));
+            blocks.push(Block::Comp(SeqBlock { lits: Lit::Raw(vec![]), ll_code: 0, ml_code: *rng.pick(&[43u8, 48, 51]), of_code: 2, seqs, count_bytes: None, modes: None, repeat: [false; 3], trailer: vec![] }));
             label = "overlap tiny offset, long match".into();
         }
         6 => {
@@ -548,7 +559,7 @@ pub fn valid_frame(rng: &mut Rng) -> (Frame, String) {
                         let code = (63 - (maxoff + 3).leading_zeros() as u8).saturating_sub(1).max(2);
                         let ll_code = (lits.len() / n).min(15) as u8;
                         let seqs = (0..n).map(|_| (0, rng.below(4) as u32, rng.next() as u32)).collect();
-                        let b = SeqBlock { lits: Lit::Raw(lits), ll_code, ml_code: rng.range(0, 31) as u8, of_code: code, seqs, count_bytes: None, modes: None, trailer: vec![] };
+                        let b = SeqBlock { lits: Lit::Raw(lits), ll_code, ml_code: rng.range(0, 31) as u8, of_code: code, seqs, count_bytes: None, modes: None, repeat: [false; 3], trailer: vec![] };
                         blocks.push(Block::Comp(b));
                         total += 1; // approximate
                     }
@@ -556,11 +567,64 @@ pub fn valid_frame(rng: &mut Rng) -> (Frame, String) {
             }
             label = format!("mixed blocks x{}", blocks.len());
         }
+        10 => {
+            // Repeat_Mode after RLE_Mode: a block that repeats tables an EARLIER block sent in RLE mode, in every
+            // combination (all three repeated; some repeated, some re-sent), also across an intervening raw block
+            blocks.push(Block::Raw(seed_raw.clone()));
+            let (ll_code, ml_code, of_code) = (rng.range(0, 3) as u8, rng.range(0, 20) as u8, 2u8);
+            let mk = |rng: &mut Rng, repeat: [bool; 3]| {
+                let n = rng.range(1, 12) as usize;
+                let lits = { let n_ = n * ll_code as usize + 2; rng.bytes(n_) };
+                let seqs = (0..n).map(|_| (0u32, 0u32, rng.below(4) as u32)).collect();
+                Block::Comp(SeqBlock { lits: Lit::Raw(lits), ll_code, ml_code, of_code, seqs, count_bytes: None, modes: None, repeat, trailer: vec![] })
+            };
+            blocks.push(mk(rng, [false; 3]));
+            let nb = rng.range(1, 5);
+            for _ in 0..nb {
+                if rng.chance(1, 4) {
+                    blocks.push(Block::Rle(rng.next() as u8, rng.range(0, 50) as usize));
+                }
+                let r = match rng.below(4) {
+                    0 => [true, true, true],
+                    1 => [true, false, true],
+                    2 => [false, true, false],
+                    _ => [rng.chance(1, 2), rng.chance(1, 2), rng.chance(1, 2)],
+                };
+                blocks.push(mk(rng, r));
+            }
+            label = format!("repeat-after-RLE tables over {} blocks", blocks.len());
+        }
+        11 => {
+            // far offsets with maximal extra bits: offset code >= 26 together with 16-bit length extras makes the three
+            // extra-bit fields exceed 56 bits (the reader's slow path).  The history comes from RLE blocks (cheap).
+            let code = *rng.pick(&[26u8, 26, 27]);
+            let need: u64 = (1u64 << code) + rng.below(1000) + 70_000;
+            let mut produced = 0u64;
+            while produced < need {
+                let n = (need - produced).min(128 * 1024) as usize;
+                blocks.push(Block::Rle((produced >> 17) as u8, n));
+                produced += n as u64;
+            }
+            blocks.push(Block::Raw(seed_raw.clone()));
+            let off_extra = rng.below(1000) as u32; // offset value = 2^code + extra -> offset = that - 3
+            let (ll_code, ml_code) = *rng.pick(&[(34u8, 52u8), (35, 51), (33, 52)]);
+            let ll_e = rng.below(8) as u32;
+            let ml_e = rng.below(8) as u32;
+            let ll = LL_BASE[ll_code as usize].0 + ll_e;
+            let ml = ML_BASE[ml_code as usize].0 + ml_e;
+            // keep the block within 128 KiB: use small extras (the WIDTHS are what matters for the bit reader)
+            let _ = ml;
+            let lits = { let n_ = ll as usize + 5; rng.bytes(n_) };
+            blocks.push(Block::Comp(SeqBlock { lits: Lit::Raw(lits), ll_code, ml_code, of_code: code, seqs: vec![(ll_e, ml_e, off_extra)], count_bytes: None, modes: None, repeat: [false; 3], trailer: vec![] }));
+            // window large enough for the offset
+            let wd = ((code as u8 + 1 - 10) << 3) as u8;
+            return (Frame::simple(blocks, wd, false), format!("far offset code {} with ll_code {} ml_code {} (extra bits {} > 56)", code, ll_code, ml_code, code as u32 + LL_BASE[ll_code as usize].1 as u32 + ML_BASE[ml_code as usize].1 as u32));
+        }
         7 => {
             // literals-only compressed blocks and empty blocks
             blocks.push(Block::Raw(vec![]));
-            blocks.push(Block::Comp(SeqBlock { lits: Lit::Raw({ let n_ = rng.range(0, 5000) as usize; rng.bytes(n_) }), ll_code: 0, ml_code: 0, of_code: 0, seqs: vec![], count_bytes: None, modes: None, trailer: vec![] }));
-            blocks.push(Block::Comp(SeqBlock { lits: Lit::Rle(3, rng.range(0, 100000) as usize), ll_code: 0, ml_code: 0, of_code: 0, seqs: vec![], count_bytes: None, modes: None, trailer: vec![] }));
+            blocks.push(Block::Comp(SeqBlock { lits: Lit::Raw({ let n_ = rng.range(0, 5000) as usize; rng.bytes(n_) }), ll_code: 0, ml_code: 0, of_code: 0, seqs: vec![], count_bytes: None, modes: None, repeat: [false; 3], trailer: vec![] }));
+            blocks.push(Block::Comp(SeqBlock { lits: Lit::Rle(3, rng.range(0, 100000) as usize), ll_code: 0, ml_code: 0, of_code: 0, seqs: vec![], count_bytes: None, modes: None, repeat: [false; 3], trailer: vec![] }));
             blocks.push(Block::Rle(1, 0));
             label = "literal-only / empty blocks".into();
         }
@@ -570,7 +634,7 @@ pub fn valid_frame(rng: &mut Rng) -> (Frame, String) {
             let ll_code = rng.range(0, 8) as u8;
             let lits = rng.bytes(n * ll_code as usize);
             let seqs = (0..n).map(|_| (0, rng.below(4) as u32, rng.below(8) as u32)).collect();
-            blocks.push(Block::Comp(SeqBlock { lits: Lit::Raw(lits), ll_code, ml_code: rng.range(0, 35) as u8, of_code: 3, seqs, count_bytes: None, modes: None, trailer: vec![] }));
+            blocks.push(Block::Comp(SeqBlock { lits: Lit::Raw(lits), ll_code, ml_code: rng.range(0, 35) as u8, of_code: 3, seqs, count_bytes: None, modes: None, repeat: [false; 3], trailer: vec![] }));
             label = "generic rle-mode sequences".into();
         }
     }
@@ -583,7 +647,7 @@ pub fn valid_frame(rng: &mut Rng) -> (Frame, String) {
 pub fn hostile_frame(rng: &mut Rng) -> (Vec<u8>, String) {
     let kind = rng.below(16);
     let raw = |rng: &mut Rng| Block::Raw(rng.bytes(4));
-    let rle_seq = |lits: Lit, ll: u8, ml: u8, of: u8, seqs: Vec<(u32, u32, u32)>| SeqBlock { lits, ll_code: ll, ml_code: ml, of_code: of, seqs, count_bytes: None, modes: None, trailer: vec![] };
+    let rle_seq = |lits: Lit, ll: u8, ml: u8, of: u8, seqs: Vec<(u32, u32, u32)>| SeqBlock { lits, ll_code: ll, ml_code: ml, of_code: of, seqs, count_bytes: None, modes: None, repeat: [false; 3], trailer: vec![] };
     let (f, label): (Frame, String) = match kind {
         0 => {
             // F1 family: thousands of maximum-length matches
